@@ -2,6 +2,8 @@ import Oracle.StreamEngine
 import Oracle.CodecEngine
 import Oracle.HandshakeEngine
 import Oracle.CacheEngine
+import Oracle.ClaimEngine
+import Oracle.FsPathEngine
 
 def main (args : List String) : IO UInt32 := do
   match args with
@@ -9,6 +11,8 @@ def main (args : List String) : IO UInt32 := do
   | ["codec"] => Oracle.CodecEngine.run; return 0
   | ["hs"] => Oracle.HandshakeEngine.run; return 0
   | ["sc"] => Oracle.CacheEngine.run; return 0
+  | ["claim"] => Oracle.ClaimEngine.run; return 0
+  | ["fspath"] => Oracle.FsPathEngine.run; return 0
   | _ =>
     IO.eprintln "usage: cedar_oracle <engine>   (one op per stdin line, one reply per line)"
     return 2
